@@ -108,6 +108,26 @@ def run(chk):
             if int(c.digest()) != g8 or int(c2.digest()) != g16 or int(c4.digest()) != g16:
                 bad = (s, "incremental", k, int(c.digest()), int(c2.digest()))
                 break
+            # reading the digest is an observation, not an operation: digest()/hexdigest() between updates (and twice in a
+            # row) change nothing; many small chunks; the object the copy was taken from is unaffected by the copy's updates
+            if i % 4 == 0:
+                j = rng.randrange(k + 1)
+                ok_inc = True
+                for cls, full, spec_pref in ((CRC8, g8, "crc8spec"), (CRC16, g16, "crc16spec")):
+                    o = cls()
+                    first = int(o.digest())
+                    o.update(s[:j]); d1 = int(o.digest()); d1b = int(o.digest()); o.hexdigest()
+                    cp = o.copy()
+                    o.update(s[j:k]); d2 = int(o.digest())
+                    o.update(s[k:]); d3 = int(o.digest())
+                    cp.update(b"\x5a\xa5")
+                    want1, want2 = [int(x) for x in model.batch(["%s %s" % (spec_pref, hexs(s[:j])), "%s %s" % (spec_pref, hexs(s[:k]))])]
+                    want0 = int(model.batch(["%s -" % spec_pref])[0])
+                    if (first, d1, d1b, d2, d3) != (want0, want1, want1, want2, full) or int(o.digest()) != full:
+                        ok_inc = False
+                        bad = (s, "digest-between-updates", cls.__name__, [j, k], [first, d1, d1b, d2, d3], [want0, want1, want1, want2, full])
+                if not ok_inc:
+                    break
             chk.evaluations += 1
         chk.oblige("monitor:spec-on-impl-digests+incremental", bad is None, "" if bad is None else repr(bad))
         if bad is not None and not chk.violations:
